@@ -28,7 +28,7 @@ RULE = ('seeded histories ending in (and interleaved with) '
 W = {'bisect': 8, 'uniform': 0.2, 'uniform_space': 0.2, 'dorfler_iso': 2,
      'dorfler_aniso': 3, 'grading': 0.0}
 TIERS = {
-    'quick': {'runs': 2500, 'budget_s': 150, 'leaf_cap': 200, 'max_ops': 80,
+    'quick': {'runs': 8000, 'budget_s': 150, 'leaf_cap': 200, 'max_ops': 80,
               'weights': W, 'tail': ['dorfler_iso', 'dorfler_aniso'],
               'p_short': 0.45},
     'thorough': {'runs': 100000, 'budget_s': 1500, 'leaf_cap': 400,
